@@ -111,13 +111,16 @@ class PDFTextDevice(PDFDevice):
         font = textstate.font
         fontsize = textstate.fontsize
         scaling = textstate.scaling * 0.01
-        charspace = textstate.charspace * scaling
-        wordspace = textstate.wordspace * scaling
-        rise = textstate.rise
         assert font is not None
+        # Horizontal scaling (Tz) applies to horizontal displacements only: in
+        # vertical writing the pen moves by w1 * Tfs + Tc + Tw, unscaled.
+        hscale = 1.0 if font.is_vertical() else scaling
+        charspace = textstate.charspace * hscale
+        wordspace = textstate.wordspace * hscale
+        rise = textstate.rise
         if font.is_multibyte():
             wordspace = 0
-        dxscale = 0.001 * fontsize * scaling
+        dxscale = 0.001 * fontsize * hscale
         if font.is_vertical():
             textstate.linematrix = self.render_string_vertical(
                 seq,
